@@ -7,14 +7,15 @@ wt="$1"; name="$2"; shift 2
 out=/verif/seeded/$name
 mkdir -p "$out"
 cd "$wt" || exit 2
+if [ -f patch.diff ] && ! diff -q <(git diff -- src) patch.diff >/dev/null; then echo "WARNING: worktree src differs from its patch.diff"; fi
 git diff -- src > "$out/patch.diff"
 cp tests/seeded_demo.rs "$out/seeded_demo.rs" 2>/dev/null
 echo "== demo WITH the change"
 cargo test --offline --features verif --test seeded_demo 2>&1 | grep -E "^test |test result" | tee "$out/demo_with.txt"
-git stash push -q -- src
+git apply -R "$out/patch.diff"
 echo "== demo WITHOUT the change"
 cargo test --offline --features verif --test seeded_demo 2>&1 | grep -E "^test |test result" | tee "$out/demo_without.txt"
-git stash pop -q
+git apply "$out/patch.diff"
 echo "== applying to /repo"
 cd /repo || exit 2
 if ! git apply --check "$out/patch.diff"; then echo "PATCH DOES NOT APPLY to /repo HEAD"; exit 2; fi
